@@ -731,6 +731,132 @@ def rule_every_constraint_projected(repo, rep):
       rep.derived(R, key, site(f, lp))
 
 
+def rule_stopping(repo, rep):
+  R = 'R-GUARD:itml-stopping-criterion'
+  rep.rule(R, 'the cycle loop of ITML is left early only under the '
+           'documented criterion: sum |lambda_old - lambda| / (||lambda|| + '
+           '||lambda_old||) < tol, or both norms zero (no constraint active) '
+           '- the tests of every break, with temporaries unfolded, are '
+           'compared with these two forms')
+  f = astutil.inline_helpers(repo, repo.get_func('itml._BaseITML._fit'))
+  # the dual vector and its previous copy
+  lam = old = None
+  for n in ast.walk(f.node):
+    if isinstance(n, ast.Assign) and isinstance(n.targets[0], ast.Name) and \
+            isinstance(n.value, ast.Call) and \
+            isinstance(n.value.func, ast.Attribute) and \
+            n.value.func.attr == 'copy' and \
+            isinstance(n.value.func.value, ast.Name):
+      lam, old = n.value.func.value.id, n.targets[0].id
+  loops = [n for n in ast.walk(f.node) if isinstance(n, ast.For) and
+           'max_iter' in ast.unparse(n.iter)]
+  key = 'itml._BaseITML._fit:'
+  if lam is None or len(loops) != 1:
+    rep.unknown(R, key + 'break', site(f), 'dual vector / cycle loop not '
+                'identified')
+    return
+  lp = loops[0]
+  inner = [x for x in ast.walk(lp) if isinstance(x, (ast.For, ast.While))
+           and x is not lp]
+  brks = [b for b in ast.walk(lp) if isinstance(b, ast.Break) and
+          not any(b in list(ast.walk(i)) for i in inner)]
+  if not brks:
+    rep.unknown(R, key + 'break', site(f, lp), 'no early exit')
+    return
+  def is_diff(e):
+    """lambda_old - lambda (either order)"""
+    return isinstance(e, ast.BinOp) and isinstance(e.op, ast.Sub) and \
+        {ast.unparse(e.left), ast.unparse(e.right)} == {lam, old}
+
+  def is_abs_diff(e):
+    return isinstance(e, ast.Call) and ast.unparse(e.func) in (
+        'np.abs', 'np.absolute', 'np.fabs', 'abs') and len(e.args) == 1 and \
+        is_diff(e.args[0])
+
+  def is_l1(e):
+    if not isinstance(e, ast.Call):
+      return False
+    fn = ast.unparse(e.func)
+    if isinstance(e.func, ast.Attribute) and e.func.attr == 'sum' and \
+            not e.args and is_abs_diff(e.func.value):
+      return True
+    if fn in ('np.sum', 'sum') and len(e.args) == 1 and is_abs_diff(e.args[0]):
+      return True
+    if fn.endswith('linalg.norm') and e.args and is_diff(e.args[0]):
+      o = e.args[1] if len(e.args) > 1 else next(
+          (k.value for k in e.keywords if k.arg == 'ord'), None)
+      return isinstance(o, ast.Constant) and o.value == 1
+    return False
+
+  def is_norm_of(e, nm):
+    return isinstance(e, ast.Call) and ast.unparse(e.func).endswith(
+        'linalg.norm') and len(e.args) == 1 and not e.keywords and \
+        ast.unparse(e.args[0]) == nm
+
+  def is_normsum(e):
+    return isinstance(e, ast.BinOp) and isinstance(e.op, ast.Add) and (
+        (is_norm_of(e.left, lam) and is_norm_of(e.right, old)) or
+        (is_norm_of(e.left, old) and is_norm_of(e.right, lam)))
+
+  def kind_of(test):
+    """'conv' | 'zero' | 'other-conv' | 'other-zero' | None"""
+    t = test
+    if isinstance(t, ast.Compare) and len(t.ops) == 1:
+      l, r, op = t.left, t.comparators[0], t.ops[0]
+      if ast.unparse(r) == 'self.tol' and isinstance(op, ast.Lt) and \
+              isinstance(l, ast.BinOp) and isinstance(l.op, ast.Div) and \
+              is_l1(l.left) and is_normsum(l.right):
+        return 'conv'
+      if ast.unparse(l) == 'self.tol' and isinstance(op, ast.Gt) and \
+              isinstance(r, ast.BinOp) and isinstance(r.op, ast.Div) and \
+              is_l1(r.left) and is_normsum(r.right):
+        return 'conv'
+      if isinstance(op, ast.Eq) and (
+              (is_normsum(l) and ast.unparse(r) in ('0', '0.0')) or
+              (is_normsum(r) and ast.unparse(l) in ('0', '0.0'))):
+        return 'zero'
+    txt = ast.unparse(test)
+    if lam in txt and old in txt:
+      return 'other-conv' if 'self.tol' in txt else 'other-zero'
+    return None
+  seen = set()
+  for b in brks:
+    ifs = astutil.enclosing(lp, b, ast.If)
+    if not ifs:
+      rep.refuted(R, key + 'break', site(f, b), 'unconditional break in the '
+                  'cycle loop')
+      continue
+    ifn, ch = ifs[0]
+    test = ifn.test if ch in ifn.body else ast.UnaryOp(op=ast.Not(),
+                                                        operand=ifn.test)
+    un = astutil.unfold(test, lp.body, ifn if ifn in lp.body else lp.body[-1],
+                        stop=(lam, old))
+    # canonical orientation of the comparison
+    from ..model import canon_compare
+    try:
+      un = canon_compare(un)
+    except Exception:
+      pass
+    txt = ast.unparse(un)
+    k_ = kind_of(un)
+    if k_ == 'conv':
+      seen.add('conv')
+      rep.derived(R, key + 'break:converged', site(f, b))
+    elif k_ == 'zero':
+      seen.add('zero')
+      rep.derived(R, key + 'break:no-active-constraint', site(f, b))
+    elif k_ == 'other-conv':
+      rep.refuted(R, key + 'break:converged', site(f, b), 'the loop is left '
+                  'under %s, documented sum|lambda_old - lambda| / '
+                  '(||lambda|| + ||lambda_old||) < tol' % txt)
+    elif k_ == 'other-zero':
+      rep.refuted(R, key + 'break:no-active-constraint', site(f, b), 'the '
+                  'loop is left under %s, documented ||lambda|| + '
+                  '||lambda_old|| == 0' % txt)
+    else:
+      rep.unknown(R, key + 'break', site(f, b), 'exit test %s' % txt)
+
+
 def check(repo, rep, tier):
   rule_dual_nonneg(repo, rep)
   rule_rank_one(repo, rep)
@@ -738,6 +864,7 @@ def check(repo, rep, tier):
   rule_bounds(repo, rep)
   rule_setup(repo, rep)
   rule_every_constraint_projected(repo, rep)
+  rule_stopping(repo, rep)
   # bounds / prior given as integer arrays hold the same numbers
   from . import c06
   fl = len(rep.floors)
